@@ -9,3 +9,8 @@ Proof. reflexivity. Qed.
 Theorem gen_create_combination_grid_is_model grids mask :
   gen_create_combination_grid grids mask = combination_grid grids mask.
 Proof. unfold gen_create_combination_grid, combination_grid. cbv zeta. now rewrite map_map. Qed.
+
+(* the mask and the meshgrid it selects from have the same axes in the same order *)
+Theorem mask_and_meshgrid_axes_agree grid_names subset :
+  gen_filter_mask_axis_names grid_names subset = gen_combination_grid_axis_names grid_names subset.
+Proof. reflexivity. Qed.
